@@ -86,6 +86,8 @@ class FakeRails:
 
     constructed = []
     calls = []
+    served_by = []          # per call: the `instructions` texts of the configuration the serving instance was built from
+    main_llm_supports_streaming = True
 
     def __init__(self, config=None, verbose=False, **kw):
         self.config = config
@@ -95,7 +97,14 @@ class FakeRails:
     async def generate_async(self, prompt=None, messages=None, options=None, state=None,
                              streaming_handler=None):
         FakeRails.calls.append(copy.deepcopy(messages))
-        return fake_reply(messages)
+        FakeRails.served_by.append([i.content for i in (getattr(self.config, "instructions", None) or [])])
+        reply = fake_reply(messages)
+        if streaming_handler is not None:
+            text = reply["content"]
+            await streaming_handler.push_chunk(text[:3])
+            await streaming_handler.push_chunk(text[3:])
+            await streaming_handler.push_chunk(None)
+        return reply
 
 
 # ------------------------------------------------------------------ world (scratch tree + patches)
@@ -115,6 +124,17 @@ class World:
             with open(os.path.join(p, "config.yml"), "w") as f:
                 f.write("models: []\ninstructions:\n  - type: general\n    content: \"marker %s\"\n" % d)
         self.root = os.path.join(self.base, "root")
+        # files directly in the root: `a.yml` is a well-formed single-file configuration, `cfg1.yml` a YAML list
+        with open(os.path.join(self.root, "a.yml"), "w") as f:
+            f.write("models: []\ninstructions:\n  - type: general\n    content: \"marker root/a.yml\"\n")
+        with open(os.path.join(self.root, "cfg1.yml"), "w") as f:
+            f.write("- just\n- a list\n")
+        # part C: a root whose directory names collide under a '-' join
+        for d in ("a", "b", "c", "a-b", "b-c"):
+            p = os.path.join(self.base, "rootc", d)
+            os.makedirs(p)
+            with open(os.path.join(p, "config.yml"), "w") as f:
+                f.write("models: []\ninstructions:\n  - type: general\n    content: \"marker rootc/%s\"\n" % d)
         self.loads = []
         self._saved = {
             "from_path": RailsConfig.__dict__["from_path"],
@@ -141,13 +161,13 @@ class World:
         api.app.default_config_id = None
         # let the server's own start-up code decide the mode for each root
         self.modes = {}
-        for mode, path in (("multi", self.root), ("single", os.path.join(self.root, "cfg1"))):
+        for mode, path in (("multi", self.root), ("single", os.path.join(self.root, "cfg1")), ("multic", os.path.join(self.base, "rootc"))):
             api.app.single_config_mode = False
             api.app.single_config_id = None
             api.app.rails_config_path = path
             asyncio.run(api.startup_event())
             self.modes[mode] = (path, api.app.single_config_mode, api.app.single_config_id)
-        if self.modes["multi"][1] or not self.modes["single"][1]:
+        if self.modes["multi"][1] or not self.modes["single"][1] or self.modes["multic"][1]:
             raise RuntimeError(f"HARNESS-ERROR: startup_event did not derive the expected modes: {self.modes}")
         self._client = None
         self._client_pid = None
@@ -185,6 +205,7 @@ class World:
         del self.loads[:]
         del FakeRails.constructed[:]
         del FakeRails.calls[:]
+        del FakeRails.served_by[:]
 
     def fresh_store(self):
         from nemoguardrails.server.datastore.memory_store import MemoryStore
@@ -216,8 +237,9 @@ def _where(exc):
     return best
 
 
-def _post(body):
-    """-> dict(kind=reply|status|exc, ...). Raw JSON body (ensure_ascii) so every str travels."""
+def _post(body, stream=False):
+    """-> dict(kind=reply|status|exc, ...). Raw JSON body (ensure_ascii) so every str travels.
+    stream=True: the body of the response is the streamed text itself (read to its end)."""
     c = _W.client()
     try:
         with warnings.catch_warnings():
@@ -228,6 +250,8 @@ def _post(body):
         return {"kind": "exc", "type": type(e).__name__, "where": _where(e), "msg": str(e)[:200]}
     if r.status_code != 200:
         return {"kind": "status", "status": r.status_code, "text": r.text[:200]}
+    if stream and not r.text.lstrip().startswith("{"):
+        return {"kind": "reply", "messages": [{"role": "assistant", "content": r.text}], "streamed": True}
     try:
         js = r.json()
         msgs = js["messages"]
@@ -338,6 +362,15 @@ def a_judge(mode, channel, form, ids, obs):
             out.append((f"load-outside-root:{mode}:{_outside_where(rp)}",
                         f"{case}: RailsConfig.from_path({ascii(p)}) resolves to {ascii(rp)} which is not under "
                         f"the root {root} (outcome: {obs['kind']})"))
+            break
+        if mode != "single" and rp == root:
+            out.append((f"load-of-the-root-itself:{mode}",
+                        f"{case}: RailsConfig.from_path({ascii(p)}) loads the root folder itself (all configurations below it merged "
+                        f"into one), which is not a configuration directory inside the root (outcome: {obs['kind']})"))
+            break
+        if os.path.isfile(rp):
+            out.append((f"load-of-a-file:{mode}",
+                        f"{case}: RailsConfig.from_path({ascii(p)}) loads a file, not a configuration directory (outcome: {obs['kind']})"))
             break
     no_id = form == "absent" or (form == "single" and ids[0] == "") or (form != "single" and len(ids) == 0)
     k = obs["kind"]
@@ -540,18 +573,21 @@ THREADS = {"T1": T1, "T2": T2, "none": None}
 MSGS = {"m1": {"role": "user", "content": "m1"}, "m2": {"role": "user", "content": "m2"}}
 CTX = {"k": "c1"}             # the request's `context` field ("C" in a request's message tuple): the server puts it
 CTX_MSG = {"role": "context", "content": CTX}   # in front of the request's new messages as a context message
-B_ALPHABET = [(t, ms) for t in ("T1", "T2", "none") for ms in (("m1",), ("m2",), ("m1", "m2"), ("C", "m1"))]
+# "S" in a request's message tuple: the request asks for a streamed reply (`stream: true`)
+B_ALPHABET = [(t, ms) for t in ("T1", "T2", "none") for ms in (("m1",), ("m2",), ("m1", "m2"), ("C", "m1"), ("S", "m2"))]
 
 
 def _new_messages(ms):
-    return ([copy.deepcopy(CTX_MSG)] if "C" in ms else []) + [copy.deepcopy(MSGS[m]) for m in ms if m != "C"]
+    return ([copy.deepcopy(CTX_MSG)] if "C" in ms else []) + [copy.deepcopy(MSGS[m]) for m in ms if m not in ("C", "S")]
 
 
 def b_body(req):
     t, ms = req
-    body = {"config_id": "cfg1", "messages": [copy.deepcopy(MSGS[m]) for m in ms if m != "C"]}
+    body = {"config_id": "cfg1", "messages": [copy.deepcopy(MSGS[m]) for m in ms if m not in ("C", "S")]}
     if "C" in ms:
         body["context"] = copy.deepcopy(CTX)
+    if "S" in ms:
+        body["stream"] = True
     if THREADS[t] is not None:
         body["thread_id"] = THREADS[t]
     return body
@@ -560,7 +596,7 @@ def b_body(req):
 def b_do(req):
     """one request on the real endpoint -> observation"""
     del FakeRails.calls[:]
-    r = _post(b_body(req))
+    r = _post(b_body(req), stream="S" in req[1])
     r["used"] = copy.deepcopy(FakeRails.calls)
     store = _W.api.datastore
     r["store_values"] = sorted((json.loads(v) for v in store.data.values()), key=lambda x: json.dumps(x, sort_keys=True))
@@ -783,6 +819,86 @@ def run_b_fresh(rep, tier, d, deadline):
     return done == len(tasks)
 
 
+
+# ------------------------------------------------------------------ part C: config ids over a warm rails cache
+# The server keeps one rails instance per id list.  A request must be answered as a server that has never seen
+# another request would answer it: same outcome (served / fixed reply) and, when served, an instance built from the
+# same configuration.  Directory names in this root collide under a "-" join (a-b vs [a, b]; [a, b-c] vs [a-b, c]).
+C_IDS = [("a",), ("b",), ("a-b",), ("a", "b"), ("b", "a"), ("a", "b-c"), ("a-b", "c"), ("a", "zz"), ("a-zz",), ("zz",),
+         ("a\x00b",), ('["a", "b"]',), ("('a', 'b')",)]
+
+
+def c_request(ids):
+    """one request on the current server state -> (kind, served_by)"""
+    del FakeRails.calls[:]
+    del FakeRails.served_by[:]
+    del _W.loads[:]
+    body = {"messages": USER_MSG}
+    if len(ids) == 1:
+        body["config_id"] = ids[0]
+    else:
+        body["config_ids"] = list(ids)
+    r = _post(body)
+    if r["kind"] == "reply":
+        msgs = r["messages"]
+        content = msgs[0].get("content") if len(msgs) == 1 and isinstance(msgs[0], dict) else None
+        if content == FIXED.format(ids=list(ids)):
+            return ("rejected", None)
+        if FakeRails.calls and msgs == [fake_reply(FakeRails.calls[-1])]:
+            return ("served", tuple(FakeRails.served_by[-1]))
+        return ("other-reply:" + ascii(msgs)[:120], None)
+    return (r["kind"] + ":" + str(r.get("type") or r.get("status")), None)
+
+
+def c_task(seqs):
+    W = _W
+    if W.mode != "multic":
+        W.set_mode("multic")
+    fresh = {}
+    for ids in C_IDS:
+        W.reset_case()
+        fresh[ids] = c_request(ids)
+    viols = []
+    n = steps = warm = 0
+    for seq in seqs:
+        W.reset_case()
+        for i, ids in enumerate(seq):
+            got = c_request(ids)
+            steps += 1
+            if i and got == fresh[ids]:
+                warm += 1
+            if got != fresh[ids]:
+                kind = "served-from-another-requests-instance" if got[0] == "served" else "outcome-depends-on-earlier-requests"
+                viols.append((f"rails-cache:{kind}",
+                              f"after the requests {[list(x) for x in seq[:i]]} the request {list(ids)} is answered {got}; a server that "
+                              f"has seen no other request answers {fresh[ids]}",
+                              {"part": "C", "sequence": [list(x) for x in seq[:i + 1]]}))
+                break
+        n += 1
+    return {"n": n, "steps": steps, "warm": warm, "viols": viols, "fresh": {ascii(list(k)): v[0] for k, v in fresh.items()}}
+
+
+def run_c(rep, tier, deadline):
+    d = 2 if tier == "quick" else 3
+    seqs = [s for ln in range(1, d + 1) for s in itertools.product(C_IDS, repeat=ln)]
+    chunk = max(1, len(seqs) // (par.NPROC * 2))
+    tasks = [seqs[i:i + chunk] for i in range(0, len(seqs), chunk)]
+    done = 0
+    seen_sig = {}
+    for res in par.pmap(c_task, tasks, chunksize=1, deadline=deadline):
+        done += 1
+        rep.add("C_sequences", res["n"])
+        rep.add("C_requests", res["steps"])
+        rep.add("evaluations", res["steps"])
+        rep.add("C_requests_on_a_warm_cache_agreeing_with_fresh_server", res["warm"])
+        rep.set("C_fresh_outcomes", res["fresh"])
+        for sig, what, rp in sorted(res["viols"], key=lambda v: (len(v[2]["sequence"]), json.dumps(v[2]["sequence"]))):
+            _report(rep, sig, what, rp)
+    rep.set("C_depth", d)
+    rep.set("C_id_lists", [list(x) for x in C_IDS])
+    return done == len(tasks)
+
+
 # ------------------------------------------------------------------ entry points
 def run(rep, tier):
     global _W
@@ -799,7 +915,9 @@ def run(rep, tier):
             "single-/multi-config mode is derived by the server's own startup_event for each root",
             "a request carrying no id at all (config_id absent/'' or config_ids=[] and no server default) is answered by the "
             "deliberate GuardrailsConfigurationError raise; it is counted (A_no_id_*), not judged",
-            "part B: MemoryStore; thread ids T1/T2 (T1 is a prefix of T2), `context` on one request form, no streaming; store compared by "
+            "part C: root with the directories a, b, c, a-b, b-c; every sequence of <= 2 (quick) / 3 (thorough) requests over C_id_lists with the "
+            "rails cache kept between the requests of a sequence; oracle = the answer of a server that has seen no other request",
+            "part B: MemoryStore; thread ids T1/T2 (T1 is a prefix of T2), `context` on one request form, one streamed request form (`stream: true`, the fake instance pushes the reply in two chunks); store compared by "
             "content (key naming is free)",
         ]
         a_deadline = t0 + budget * 0.75
@@ -807,6 +925,7 @@ def run(rep, tier):
         d = 4 if tier == "quick" else 6
         b_full = run_b_bfs(rep, d, t0 + budget * 0.9)
         f_full = run_b_fresh(rep, tier, d, t0 + budget)
+        c_full = run_c(rep, tier, t0 + budget * 1.2)
         la = rep.cov.get("A_ids_load_attempted_multi", 0) + rep.cov.get("A_ids_load_attempted_single", 0)
         eg = rep.cov.get("A_ids_escaping_and_guarded_multi", 0) + rep.cov.get("A_ids_escaping_and_guarded_single", 0)
         rep.set("distinct_nontrivial", la + eg + rep.cov.get("B_transitions_on_a_thread", 0))
@@ -818,8 +937,8 @@ def run(rep, tier):
                 "(A_ids_escaping_and_guarded_*); ids with separators that stay inside the root are counted only in evaluations. "
                 "B: BFS over request sequences, state = datastore contents; a transition is non-trivial when it carries a "
                 "thread_id (B_transitions_on_a_thread). distinct_nontrivial is the sum of the three.")
-        rep.set("exhaustive", bool(a_full and b_full and f_full))
-        if not (a_full and b_full and f_full):
+        rep.set("exhaustive", bool(a_full and b_full and f_full and c_full))
+        if not (a_full and b_full and f_full and c_full):
             rep.set("cap_hit", f"time budget {budget}s: part A tasks {rep.cov.get('A_tasks_done')}/{rep.cov.get('A_tasks_planned')}, "
                                f"part B depth fully explored {rep.cov.get('B_depth_fully_explored')}/{d}, fresh replays complete={f_full}")
     finally:
